@@ -451,10 +451,14 @@ static Type *declspec(Token **rest, Token *tok, VarAttr *attr) {
         error_tok(tok, "_Alignas is not allowed in this context");
       tok = skip(tok->next, "(");
 
+      // If there are several alignment specifiers, the strictest one
+      // takes effect [https://www.sigbus.info/n1570#6.7.5p6].
+      int align;
       if (is_typename(tok))
-        attr->align = typename(&tok, tok)->align;
+        align = typename(&tok, tok)->align;
       else
-        attr->align = const_expr(&tok, tok);
+        align = const_expr(&tok, tok);
+      attr->align = MAX(attr->align, align);
       tok = skip(tok, ")");
       continue;
     }
@@ -866,6 +870,8 @@ static Node *declaration(Token **rest, Token *tok, Type *basety, VarAttr *attr) 
       // static local variable
       Obj *var = new_anon_gvar(ty);
       var->is_tls = attr->is_tls;
+      if (attr->align)
+        var->align = attr->align;
       push_scope(get_ident(ty->name))->var = var;
       if (equal(tok, "="))
         gvar_initializer(&tok, tok->next, var);
